@@ -245,6 +245,8 @@ class AudioIO(object):
 
           if not self.wait:
             thread.stop()
+          else:
+            thread.play() # A paused thread would never finish
           thread.join()
 
         # Closes all recording RecStream instances
@@ -425,11 +427,13 @@ class AudioThread(threading.Thread):
       #Below is a faster way to call:
       #  self.stream.write(chunk, self.chunk_size)
       self.write_stream(st, chunk, self.chunk_size, False)
-      if not self.go.is_set():
+      if self.halting or not self.go.is_set():
         self.stream.stop_stream()
         if self.halting:
           break
         self.go.wait()
+        if self.halting: # Stopped while paused
+          break
         self.stream.start_stream()
 
     # Finished playing! Destructor-like step: let's close the thread
@@ -442,12 +446,13 @@ class AudioThread(threading.Thread):
     """ Stops the playing thread and close """
     with self.lock:
       self.halting = True
-      self.go.clear()
+      self.go.set() # Wakes the thread if it's paused, so it can halt
 
   def pause(self):
     """ Pauses the audio. """
     with self.lock:
-      self.go.clear()
+      if not self.halting: # A stopped thread should never wait again
+        self.go.clear()
 
   def play(self):
     """ Resume playing the audio. """
